@@ -68,3 +68,9 @@ GROUPS += [
           flags=["--no-malloc-may-fail"], must_fail=["reach_end", "reach_reshaped", "reach_failed_with_old_cache"], functions=["QSgrab_cache", "ILLlp_cache_init", "ILLlp_cache_alloc", "ILLlp_cache_free"],
           props=["C05", "C18", "C17"], assumed=["life/grab_cache: ILLlib_cache_solution is an arbitrary-result stub; GMP model variant TOKENS"]),
 ]
+
+GROUPS += [
+    Group("life/error_print", "qs_error_print.c", tus=["qsopt_mpq.c", "eg_io.c", "allocrus.c"], model=MODEL, dfcc=False, unwind=3, kind="proved", leak=True, timeout=600,
+          flags=["--no-malloc-may-fail"], functions=["QSerror_print", "EGioOpenFILE", "EGioClose"], props=["C11", "C18", "C17"],
+          note="loop-free; fclose is a ghost-recording stub, ILLformat_error_print (decided in life/errmem, rdr/errfmt_*) a stub"),
+]
